@@ -898,7 +898,7 @@ tpt_loop(tpt_p tpt) {
 				}
 			}
 			if (0 != (TP_F_ONESHOT & tpev_flags)) { /* Onetime. */
-				epoll_ctl((int)tpt->io_fd, EPOLL_CTL_DEL,
+				epoll_ctl((int)tp_udata->tpt->io_fd, EPOLL_CTL_DEL,
 				    (int)tp_udata->ident, &epev);
 				tp_udata->tpdata = 0;
 			}
